@@ -193,7 +193,16 @@ func (s *Store) Delete(ctx context.Context, target ocispec.Descriptor) error {
 		if s.AutoGC {
 			for _, d := range danglings {
 				// do not delete existing tagged manifests
-				if !s.isTagged(d) {
+				if s.isTagged(d) {
+					continue
+				}
+				// nodes the graph knows only by reference (e.g. foreign layers
+				// or blobs that were never pushed) have nothing to delete
+				exists, err := s.storage.Exists(ctx, d)
+				if err != nil {
+					return err
+				}
+				if exists {
 					deleteQueue = append(deleteQueue, d)
 				}
 			}
